@@ -1,6 +1,6 @@
 """C08 - stored logs are byte-exact and isolated per task."""
 import logscen
-THEOREMS = [("Properties.C08", "C08_holds"), ("AsFound.C08", "C08_as_found_refuted"), ("Properties.C08", "C08_liveness_holds")]
+THEOREMS = [("Properties.C08", "C08_holds"), ("AsFound.C08", "C08_as_found_refuted"), ("Properties.C08", "C08_liveness_holds"), ("Properties.C08", "C08_drain_holds")]
 CORRESPONDENCE = "monorail run with children writing scripted chunks/pauses on both streams; stored *.zst decoded independently == Model.Reader.run (out = arrived)"
 LEVEL_NOTE = ("Coq theorem C08_holds: (reader) for every sequence of arrivals, polls, flush ticks and end of stream - any line lengths, no trailing newline, pauses inside a line, any bytes - "
               "once the reader has returned without error the compressor has been handed exactly the bytes written, in order; (compressor) for every number of threads and every interleaving "
@@ -9,7 +9,7 @@ LEVEL_NOTE = ("Coq theorem C08_holds: (reader) for every sequence of arrivals, p
               "log show parsed into header + bytes per log.")
 TRUSTED = ["Coq 8.16.1 kernel; no axioms", "tokio read_until appends partial data to the caller's buffer (tokio 1.41.1 source); mpsc is FIFO per channel", "zstd round trip; OS pipes deliver bytes in order",
            "the event list fed to the model is a plausible schedule reconstructed from the script (ticks per 500 ms of pause); the theorem covers every schedule", "modelled, not verified: the Rust source"]
-RULE = ("runs with 2-24 targets x 2 streams, without a log listener, with one attached throughout, and with one killed 0.2-1.2 s into the run; per stream 0-5 chunks: text lines (35% split by a 560-1050 ms pause), binary blobs, 8191/8192/8193/70000-byte lines, empty writes, CRLF, no trailing newline; "
+RULE = ("runs with 2-24 targets x 2 streams (one run with 2 MB of text per stream, compared with the stored files and with what `log show` prints), without a log listener, with one attached throughout, and with one killed 0.2-1.2 s into the run; per stream 0-5 chunks: text lines (35% split by a 560-1050 ms pause), binary blobs, 8191/8192/8193/70000-byte lines, empty writes, CRLF, no trailing newline; "
         "non-trivial = every run (>= 4 streams); distinct by script")
 def run(ctx, scale): logscen.run(ctx, scale, "C08")
 def replay(ctx, case): return logscen.replay(ctx, case, "C08")
